@@ -302,7 +302,8 @@ func pathRelated(a, b string) bool {
 // pathsIn lists the variable paths an expression reads.  A path read as a plain operand (`start` in
 // `end - start`) is returned as is; a path read THROUGH — indexed, dereferenced, measured by len/cap, or any
 // selector path — is marked deep with a leading "*": a callee that merely receives the value can change what a
-// deep read sees, never what a plain read of a variable sees.
+// deep read sees, never what a plain read of a variable sees.  `len(p)`/`cap(p)` of a path is marked "#p": for a
+// SLICE p neither a write to an element nor a callee that receives p can change it.
 func pathsIn(e ast.Expr) []string {
 	var out []string
 	var walk func(n ast.Node, deep bool)
@@ -337,6 +338,12 @@ func pathsIn(e ast.Expr) []string {
 		case *ast.CallExpr:
 			id, _ := t.Fun.(*ast.Ident)
 			for _, a := range t.Args {
+				if id != nil && (id.Name == "len" || id.Name == "cap") && !deep {
+					if p, ok := pathOf(a); ok {
+						out = append(out, "#"+p) // only measured: a write to an ELEMENT of a slice does not change it
+						continue
+					}
+				}
 				walk(a, deep || (id != nil && (id.Name == "len" || id.Name == "cap")))
 			}
 		}
@@ -345,11 +352,97 @@ func pathsIn(e ast.Expr) []string {
 	return out
 }
 
+// unmark strips the read-kind mark of pathsIn.
+func unmark(q string) string { return strings.TrimLeft(q, "*#") }
+
+// sliceTyped reports whether e (a variable or a field of a receiver/parameter) is declared with a slice type:
+// `[]T`, or a type parameter of fn constrained by `~[]T`.  Only declarations in f are consulted; unknown is false.
+func sliceTyped(f *ast.File, fn *ast.FuncDecl, e ast.Expr) bool {
+	isSlice := func(t ast.Expr) bool {
+		if a, ok := t.(*ast.ArrayType); ok {
+			return a.Len == nil
+		}
+		id, ok := t.(*ast.Ident)
+		if !ok || fn == nil || fn.Type.TypeParams == nil {
+			return false
+		}
+		for _, tp := range fn.Type.TypeParams.List {
+			for _, nm := range tp.Names {
+				if nm.Name != id.Name {
+					continue
+				}
+				c := tp.Type
+				if u, ok := c.(*ast.UnaryExpr); ok && u.Op == token.TILDE {
+					c = u.X
+				}
+				if a, ok := c.(*ast.ArrayType); ok {
+					return a.Len == nil
+				}
+			}
+		}
+		return false
+	}
+	declType := func(id *ast.Ident) ast.Expr {
+		if id.Obj == nil {
+			return nil
+		}
+		if fld, ok := id.Obj.Decl.(*ast.Field); ok {
+			return fld.Type
+		}
+		return nil
+	}
+	switch t := e.(type) {
+	case *ast.ParenExpr:
+		return sliceTyped(f, fn, t.X)
+	case *ast.Ident:
+		if ty := declType(t); ty != nil {
+			return isSlice(ty)
+		}
+	case *ast.SelectorExpr:
+		v, ok := t.X.(*ast.Ident)
+		if !ok || f == nil {
+			return false
+		}
+		ty := declType(v)
+		if ty == nil {
+			return false
+		}
+		name := recvName(ty)
+		for _, d := range f.Decls {
+			gd, ok := d.(*ast.GenDecl)
+			if !ok || gd.Tok != token.TYPE {
+				continue
+			}
+			for _, sp := range gd.Specs {
+				ts := sp.(*ast.TypeSpec)
+				st, ok := ts.Type.(*ast.StructType)
+				if !ok || ts.Name.Name != name {
+					continue
+				}
+				for _, fl := range st.Fields.List {
+					for _, nm := range fl.Names {
+						if nm.Name == t.Sel.Name {
+							return isSlice(fl.Type)
+						}
+					}
+				}
+			}
+		}
+	}
+	return false
+}
+
 // mayModify reports whether statement-level node n may change the value of one of paths: an assignment,
 // `++`/`--`, a range clause writing to a related path, `&p`, a method call on a related path, or a call that is
 // handed a value through which rhs reads (see pathsIn); len/cap/min/max/make/panic and integer conversions are
 // known not to.
-func mayModify(n ast.Node, paths []string) bool {
+// typeCtx: where to look up declared types (nil: nothing is known to be a slice).
+type typeCtx struct {
+	f  *ast.File
+	fn *ast.FuncDecl
+}
+
+func mayModify(n ast.Node, paths []string, ctx *typeCtx) bool {
 	// related: a write to e (or through a pointer receiver e) may change a read of one of paths
 	related := func(e ast.Expr) bool {
 		p, ok := basePath(e)
@@ -357,11 +450,43 @@ func mayModify(n ast.Node, paths []string) bool {
 			return true // an assignment target we cannot name: assume the worst
 		}
 		for _, q := range paths {
-			if pathRelated(p, strings.TrimPrefix(q, "*")) {
+			if pathRelated(p, unmark(q)) {
 				return true
 			}
 		}
 		return false
+	}
+	// onlyElements: writing an element of (or handing over) the slice e cannot change a `len`/`cap` read, nor a plain
+	// read of the variable
+	onlyElements := func(e ast.Expr) bool {
+		b := e
+		for {
+			switch t := b.(type) {
+			case *ast.IndexExpr:
+				b = t.X
+				continue
+			case *ast.SliceExpr:
+				b = t.X
+				continue
+			case *ast.ParenExpr:
+				b = t.X
+				continue
+			}
+			break
+		}
+		if ctx == nil || !sliceTyped(ctx.f, ctx.fn, b) {
+			return false
+		}
+		p, ok := pathOf(b)
+		if !ok {
+			return false
+		}
+		for _, q := range paths {
+			if pathRelated(p, unmark(q)) && strings.HasPrefix(q, "*") {
+				return false // an element (or something below) is read
+			}
+		}
+		return true
 	}
 	// passed: handing the VALUE of e to a callee may change a deep read below e, never a plain read of e itself
 	passed := func(e ast.Expr) bool {
@@ -370,7 +495,7 @@ func mayModify(n ast.Node, paths []string) bool {
 			return true
 		}
 		for _, q := range paths {
-			if bare := strings.TrimPrefix(q, "*"); pathRelated(p, bare) && (bare != q || bare != p) {
+			if bare := unmark(q); pathRelated(p, bare) && (bare != q || bare != p) {
 				return true
 			}
 		}
@@ -386,6 +511,9 @@ func mayModify(n ast.Node, paths []string) bool {
 			for _, l := range t.Lhs {
 				if id, ok := l.(*ast.Ident); ok && (id.Name == "_" || (t.Tok == token.DEFINE && id.Obj != nil && id.Obj.Decl == t)) {
 					continue // a fresh variable
+				}
+				if _, elem := l.(*ast.IndexExpr); elem && onlyElements(l) {
+					continue
 				}
 				hit = hit || related(l)
 			}
@@ -411,6 +539,18 @@ func mayModify(n ast.Node, paths []string) bool {
 					return true
 				}
 			}
+			// a closure defined in this function (or called in place) may write any variable it captures; a
+			// function-typed PARAMETER (a callback such as `f` of `Each`) is taken not to reach back into the locals
+			switch fun := t.Fun.(type) {
+			case *ast.FuncLit:
+				hit = true
+			case *ast.Ident:
+				if fun.Obj != nil && fun.Obj.Kind == ast.Var {
+					if _, param := fun.Obj.Decl.(*ast.Field); !param {
+						hit = true
+					}
+				}
+			}
 			if sel, ok := t.Fun.(*ast.SelectorExpr); ok {
 				if _, isPath := pathOf(sel.X); isPath {
 					hit = hit || related(sel.X)
@@ -418,6 +558,9 @@ func mayModify(n ast.Node, paths []string) bool {
 			}
 			for _, a := range t.Args {
 				// the value of a variable or a sub-slice of it; an ELEMENT `p[i]` handed over cannot change p
+				if onlyElements(a) {
+					continue
+				}
 				if _, isSlice := a.(*ast.SliceExpr); isSlice {
 					hit = hit || passed(a)
 				} else if _, isPath := pathOf(a); isPath {
@@ -449,7 +592,8 @@ func stmtLists(n ast.Node) []*[]ast.Stmt {
 
 // inlineNewAliases substitutes and removes the one-step aliases among the locals `fresh` (objects that have
 // no counterpart on the pinned tree).
-func inlineNewAliases(fn *ast.FuncDecl, fresh []*ast.Object) {
+func inlineNewAliases(f *ast.File, fn *ast.FuncDecl, fresh []*ast.Object) {
+	ctx := &typeCtx{f, fn}
 	for _, obj := range fresh {
 		def, ok := obj.Decl.(*ast.AssignStmt)
 		if !ok || def.Tok != token.DEFINE || len(def.Lhs) != len(def.Rhs) {
@@ -533,7 +677,7 @@ func inlineNewAliases(fn *ast.FuncDecl, fresh []*ast.Object) {
 		for i, l := range def.Lhs {
 			if id, ok := l.(*ast.Ident); ok && i != idx {
 				for _, p := range paths {
-					if pathRelated(strings.TrimPrefix(p, "*"), id.Name) {
+					if pathRelated(unmark(p), id.Name) {
 						single = false
 					}
 				}
@@ -557,7 +701,7 @@ func inlineNewAliases(fn *ast.FuncDecl, fresh []*ast.Object) {
 				switch t := m.(type) {
 				case *ast.ForStmt, *ast.RangeStmt:
 					if t.Pos() <= u.Pos() && u.Pos() < t.End() && !(t.Pos() <= def.Pos() && def.Pos() < t.End()) {
-						if mayModify(t, paths) {
+						if mayModify(t, paths, ctx) {
 							okAll = false
 						}
 						return false
@@ -575,7 +719,7 @@ func inlineNewAliases(fn *ast.FuncDecl, fresh []*ast.Object) {
 						case *ast.IfStmt, *ast.SwitchStmt, *ast.TypeSwitchStmt, *ast.SelectStmt, *ast.LabeledStmt, *ast.CaseClause:
 							return true // look at the parts
 						}
-						if mayModify(t, paths) {
+						if mayModify(t, paths, ctx) {
 							okAll = false
 						}
 						return false
@@ -670,7 +814,7 @@ func isIntLit(e ast.Expr, v string) bool {
 }
 
 // countingLoop recognises `for i := <start>; i < N; i++ { B }` where B neither assigns i nor modifies N.
-func countingLoop(l *ast.ForStmt, start string) (i *ast.Ident, n ast.Expr, ok bool) {
+func countingLoop(l *ast.ForStmt, start string, ctx *typeCtx) (i *ast.Ident, n ast.Expr, ok bool) {
 	init, ok1 := l.Init.(*ast.AssignStmt)
 	cond, ok2 := l.Cond.(*ast.BinaryExpr)
 	post, ok3 := l.Post.(*ast.IncDecStmt)
@@ -687,13 +831,14 @@ func countingLoop(l *ast.ForStmt, start string) (i *ast.Ident, n ast.Expr, ok bo
 	if !ok4 || !ok5 || ci.Obj != i.Obj || pi.Obj != i.Obj || usesObj(cond.Y, i.Obj, "") {
 		return nil, nil, false
 	}
-	if cloneExpr(cond.Y, token.NoPos, nil) == nil || assignsObj(l.Body, i.Obj) || mayModify(l.Body, pathsIn(cond.Y)) {
+	if cloneExpr(cond.Y, token.NoPos, nil) == nil || assignsObj(l.Body, i.Obj) || mayModify(l.Body, pathsIn(cond.Y), ctx) {
 		return nil, nil, false
 	}
 	return i, cond.Y, true
 }
 
-func normalizeStmts(fn *ast.FuncDecl) {
+func normalizeStmts(f *ast.File, fn *ast.FuncDecl) {
+	ctx := &typeCtx{f, fn}
 	for _, list := range stmtLists(fn.Body) {
 		for k, st := range *list {
 			switch t := st.(type) {
@@ -719,13 +864,13 @@ func normalizeStmts(fn *ast.FuncDecl) {
 					(*list)[k] = as
 				}
 			case *ast.ForStmt:
-				if i, n, ok := countingLoop(t, "0"); ok {
+				if i, n, ok := countingLoop(t, "0", ctx); ok {
 					r := &ast.RangeStmt{For: t.For, Key: i, TokPos: i.End(), Tok: token.DEFINE, Range: n.Pos(), X: n, Body: t.Body}
 					if !usesObj(t.Body, i.Obj, "") {
 						r.Key, r.Tok = nil, token.ILLEGAL
 					}
 					(*list)[k] = r
-				} else if i, n, ok := countingLoop(t, "1"); ok {
+				} else if i, n, ok := countingLoop(t, "1", ctx); ok {
 					if c, isCall := n.(*ast.CallExpr); isCall && len(c.Args) == 1 {
 						if f, isId := c.Fun.(*ast.Ident); isId && f.Name == "len" && f.Obj == nil {
 							if _, isPath := pathOf(c.Args[0]); isPath {
